@@ -368,7 +368,7 @@ func (rt *runtimeS) quiesce() {
 	for _, c := range cs {
 		cl := rt.calls[c]
 		cl.mu.Lock()
-		for _, op := range []string{"unary", "open", "send", "close", "recv", "hdr"} {
+		for _, op := range []string{"unary", "open", "send", "close", "recv", "hdr", "trl"} {
 			if cl.pend[op] > 0 {
 				e := cl.base("Pend")
 				e.K = op
